@@ -373,13 +373,15 @@ pub fn run(tier: Tier) -> i32 {
     let b = super::c12b::run(&ctx, tier);
     let (c_hists, c_cmp) = super::c12c::run(&ctx);
     let d_hists = super::c12c::run_d(&ctx);
+    let e_scripts = super::c12c::run_e(&ctx);
     let cov = json!({
         "part_d_suspension_histories": d_hists,
+        "part_e_failed_bg_scripts": e_scripts,
         "part_c_interactive_histories": c_hists,
         "part_c_announcements_compared": c_cmp,
         "states": seen.len() as u64 + b.states,
         "transitions": transitions + b.transitions,
-        "traces_validated_against_impl": transitions + b.transitions + c_hists + d_hists,
+        "traces_validated_against_impl": transitions + b.transitions + c_hists + d_hists + e_scripts,
         "part_a_joblist_states": seen.len(),
         "part_a_joblist_transitions": transitions,
         "part_b_shell_job_control": b.json,
